@@ -431,6 +431,12 @@ def check_once(res, prop, cm, roles, m, single, top, an):
         site = inner_clocks[0].site if inner_clocks else site_of_seg(top, m)
         V(res, prop, 'R-SIB-ONCE', cm, m.key(), 'clock sampled %s' % ('inside the range loop' if inner_clocks else '%d times (single form: %d)' % (n_top, n_single)),
           site, 'a range operation acts at one instant: one clock sample outside the loop')
+    # the elements are applied in iteration order: the range handed in is not re-ordered / filtered first
+    for e in top.effects:
+        if e.kind == 'OUT_CALL' and str(e.name).startswith('algo:'):
+            res.ob('R-SIB-ONCE', ok=False)
+            V(res, prop, 'R-SIB-ONCE', cm, m.key(), 'the input range is re-arranged (%s) before it is applied' % e.name[5:], e.site,
+              'range operations act like the single operations applied to each element in iteration order; %s changes that order / the elements' % e.name[5:])
     # R-SIB-PREFIX: outside its per-element loop a range method changes nothing (ut_*: apart from the purge the single form also runs)
     pl = set(ops.purge_loops(top)) if roles.kind == 'maplist' else set()
     extra = [e for e in top.state_effects() if not (roles.kind == 'maplist' and e.kind == 'AUX_ERASE_RANGE')]
